@@ -133,6 +133,71 @@ func portsProtocol(build string, failAt int) []string {
 	return append(lines, "oclose")
 }
 
+// portsSkipProtocol: the consumer that looks at the first `take` items of every run only (take = 0: at
+// none) and then asks the outer stream for the next run, leaving the rest of the inner stream unread - the
+// outer Next skips it. failAt / soft failures as in portsProtocol: a call that fails softly is repeated.
+func portsSkipProtocol(build string, take, failAt int) []string {
+	lines := []string{build}
+	watched(lines, func() {
+		st := &implState{}
+		st.exec(build)
+		g, calls, ends, read := 0, 0, 0, 0
+		for len(lines) < 48 && ends < 2 {
+			c := "1"
+			if calls == failAt {
+				c = "0"
+			}
+			op := "onext " + c
+			if g != 0 && read < take {
+				op = "inext " + strconv.Itoa(g) + " " + c
+			}
+			calls++
+			out, _ := splitOut(st.exec(op))
+			lines = append(lines, op)
+			switch {
+			case strings.HasPrefix(out, "run "):
+				g, read = st.gen, 0
+			case strings.HasPrefix(out, "item "):
+				read++
+			case out == "end":
+				if strings.HasPrefix(op, "onext") {
+					ends++
+					g = 0
+				} else {
+					read = take // the run was shorter than take
+				}
+			case out == "err ctx" || strings.HasPrefix(out, "err t"):
+			default:
+				ends = 2
+			}
+		}
+	})
+	return append(lines, "oclose")
+}
+
+var runsSkipInputs = [][]int{{5, 5}, {5, 5, 5, 7}, {5, 5, 7, 7}, {5, 5, 5, 7, 7, 9}, {1, 3, 5, 2, 4, 7}, {4, 6, 5, 5, 8}, {1, 2, 3, 1, 2, 1}}
+
+// directedRunsSkip: inner streams left undrained x an expired context at every call x a transient failure
+// at every position of the source (so also at every pull the outer Next makes while it skips), repeated.
+func directedRunsSkip() {
+	for _, items := range runsSkipInputs {
+		for _, rel := range []string{"eq", "par", "le"} {
+			for take := 0; take <= 2; take++ {
+				base := "strp " + rel + " src=" + itemsStr(items)
+				calls := len(portsSkipProtocol(base, take, -1)) - 2
+				for k := -1; k < calls; k++ {
+					res.Count("directed-runs-skip-ctx")
+					check(portsSkipProtocol(base, take, k))
+				}
+				for p := 0; p <= len(items); p++ {
+					res.Count("directed-runs-skip-transient")
+					check(portsSkipProtocol("strp "+rel+" src="+withTransient(items, p), take, -1))
+				}
+			}
+		}
+	}
+}
+
 var runsInputs = [][]int{{}, {5}, {5, 5}, {5, 7}, {5, 7, 7}, {5, 5, 5, 7}, {5, 5, 7, 7}, {4, 6, 5}}
 
 func directedRuns() {
@@ -206,6 +271,7 @@ func directedStages(maxLen int) {
 func directed() {
 	peekFailSpace(3, 3, 2)
 	directedRuns()
+	directedRunsSkip()
 	directedStages(3)
 	flush()
 }
